@@ -3,6 +3,7 @@ import Ovldverif.Model.JsonD
 import Ovldverif.Model.JsonF
 import Ovldverif.Model.JsonE
 import Ovldverif.Model.JsonG
+import Ovldverif.Model.JsonH
 import Ovldverif.Spec.Types
 import Ovldverif.Spec.Resolve
 /-! Line-protocol driver: one JSON scenario per input line, one JSON result per output line. -/
@@ -166,6 +167,12 @@ def runC (j : Json) : Except String Json := do
     | some lv => toJson ((lv.map (fun (t, l) => [avail.findIdx (· == t), l])).mergeSort (fun a b => a[0]! ≤ b[0]!)))
   return Json.mkObj [("levels", Json.arr res.toArray)]
 
+/-- layer H: the model of `NameConverter` applied to an expression of the modelled subset -/
+def runH (j : Json) : Except String Json := do
+  let es ← (← jArr (← jField j "exprs")).toList.mapM Ovld.Rw.exprOfJson
+  return Json.mkObj [("rw", Json.arr (es.map (fun e => Ovld.Rw.exprToJson (Ovld.Rw.rw e 0).1)).toArray),
+    ("userOnly", toJson (es.map Ovld.Rw.userOnly))]
+
 def runLine (line : String) : String :=
   match Json.parse line with
   | .error e => (Json.mkObj [("error", Json.str s!"parse: {e}")]).compress
@@ -179,6 +186,7 @@ def runLine (line : String) : String :=
       | "F" => runF j
       | "E" => runE j
       | "G" => runG j
+      | "H" => runH j
       | _ => throw s!"unknown layer {layer}"
     match r with
     | .ok v => v.compress
